@@ -53,6 +53,9 @@ def reviewed : List (Site × Cls) := [
   (("ir_optimizations.py", "remove_redundant_transpose_pairs_ir", "for-set", "elem_nodes", "node", "0712616364f8"), .commutingLocal),
   -- pass -0.5: replace inputs, then `_refresh_elementwise_output_shape(node)` IN SET ORDER  (F-C14-1)
   (("ir_optimizations.py", "remove_redundant_transpose_pairs_ir", "for-set", "elem_nodes", "node", "1cddeed12ff3"), .refutedF1),
+  -- pass -0.5 AFTER the fix of F-C14-1 (notes/C14-fix-F-C14-1.diff): the set loop only replaces each node's own
+  -- inputs; the refresh then runs `for node in nodes: if node in elem_nodes` (a list: no site, `refresh_graph_order_invariant`)
+  (("ir_optimizations.py", "remove_redundant_transpose_pairs_ir", "for-set", "elem_nodes", "node", "68b4499ac49e"), .commutingLocal),
   -- pass 0: consumers of every elementwise node stay inside the chain (flag loop with break)
   (("ir_optimizations.py", "remove_redundant_transpose_pairs_ir", "for-set", "elem_nodes", "node", "9a1cf34e66f9"), .reduction),
   -- pass -0.5: collect `output_transposes`, verdict `ok` = all consumers admissible
